@@ -9,6 +9,8 @@ import (
 	"sync"
 	"sync/atomic"
 
+	"github.com/robfig/soy"
+	"github.com/robfig/soy/data"
 	"github.com/robfig/soy/parse"
 	"github.com/robfig/soy/soyhtml"
 	"github.com/robfig/soy/soyjs"
@@ -114,7 +116,15 @@ func init() {
 			for f := range files {
 				menu = append(menu, opT{op: c08Op{kind: "js", file: f}}, opT{op: c08Op{kind: "js", file: f, es6: true, msgs: true}}, opT{op: c08Op{kind: "js", file: f, viaGen: true}})
 			}
-			menu = append(menu, opT{kind: 1}, opT{kind: 2, expr: exprs[r.Intn(len(exprs))]})
+			menu = append(menu, opT{kind: 1}, opT{kind: 2, expr: exprs[r.Intn(len(exprs))]}, opT{kind: 3})
+			// one globals map handed to many independent bundles, each of which adds globals of its own afterwards
+			sharedGlobals := toDataMap(prog2.B.Globals)
+			if sharedGlobals == nil {
+				sharedGlobals = data.Map{}
+			}
+			sharedGlobals["verif.SHARED"] = data.Int(1)
+			sharedBefore := len(sharedGlobals)
+			var ownSeq int64
 			cold, err := newWorld(files, prog.B.Globals, datas, prog.IJ)
 			if err != nil {
 				return fw.Result{Verdict: fw.Skip}
@@ -124,6 +134,13 @@ func init() {
 				case 1:
 					_, err := compileRegistry(files2, prog2.B.Globals)
 					return "compile:" + errClass(err)
+				case 3:
+					b := soy.NewBundle().AddGlobalsMap(sharedGlobals).AddGlobalsMap(data.Map{fmt.Sprintf("verif.OWN_%d", atomic.AddInt64(&ownSeq, 1)): data.Int(2)})
+					for _, f := range files2 {
+						b.AddTemplateString(f.Name, f.Text)
+					}
+					_, err := b.Compile()
+					return "compile-shared-globals:" + errClass(err)
 				case 2:
 					n, err := parse.Expr(o.expr)
 					if err != nil {
@@ -226,6 +243,10 @@ func init() {
 			if i%8 == 0 {
 				ctx.Sample(map[string]interface{}{"goroutines": G, "ops_each": R, "gomaxprocs": procs, "yield_every": yieldEvery, "config": c08Config,
 					"overlapping_starts": overlaps, "interleaving_prefix": fw.Trim(sig.String(), 120), "menu_size": len(menu)})
+			}
+			if len(sharedGlobals) != sharedBefore {
+				return fw.Result{Verdict: fw.Violated, Key: "globals-map-of-the-caller-modified", Case: map[string]interface{}{"files": files2},
+					Msg: fmt.Sprintf("the globals map given to AddGlobalsMap had %d entries, after the bundles were compiled it has %d", sharedBefore, len(sharedGlobals))}
 			}
 			if len(mismatches) > 0 {
 				m := mismatches[0]
